@@ -21,13 +21,27 @@ DEFAULT_FIELDS = ['id', 'name', 'resource', 'estimate', 'spent', 'start', 'end',
 THEMES = [None, {'header_color': '91m', 'level_colors': ['94m']}, {'level_colors': ['96m', '93m', '95m', '91m']}]
 
 
-def split_cells(line):
-    """Cells of one printed line; None if something outside colour-wrapped cells remains."""
-    cells = CELL.findall(line)
-    rest = CELL.sub('', line)
-    if rest != '':
+ANSI = re.compile('\033\\[[0-9;]*m')
+
+
+def column_offsets(header, fl):
+    """Offsets at which the header names start (the statement fixes no separator and no colouring: columns are recovered from
+    the header text alone, names in order, separated by blanks); None if the header is not the field names in order."""
+    offs = []
+    pos = 0
+    for f in fl:
+        name = f.upper()
+        while pos < len(header) and header[pos] == ' ':
+            pos += 1
+        if header[pos:pos + len(name)] != name:
+            return None
+        offs.append(pos)
+        pos += len(name)
+        if pos < len(header) and header[pos] != ' ':
+            return None
+    if header[pos:].strip() != '':
         return None
-    return [c[1] for c in cells]
+    return offs
 
 
 def build(par, links, names, vals, ext_link):
@@ -83,34 +97,31 @@ def expected_link_cell(t, linked):
 
 
 def check_sheet(text, shown, objs, fields, V, P):
-    lines = text.split('\n')
+    lines = [ANSI.sub('', l) for l in text.split('\n')]
     if len(lines) != 1 + len(shown):
         V('line-count', f'{len(lines)} lines for {len(shown)} tasks shown')
         return
-    rows = [split_cells(l) for l in lines]
-    if any(r is None for r in rows):
-        V('cells-not-recoverable', 'text outside colour-wrapped cells')
-        return
     fl = fields if fields is not None else DEFAULT_FIELDS
-    if any(len(r) != len(fl) for r in rows):
-        V('cell-count', f'cells per line {[len(r) for r in rows]}, {len(fl)} fields')
-        return
-    widths = {len(''.join(r)) for r in rows}
+    widths = {len(l) for l in lines}
     if len(widths) != 1:
         V('lines-differ-in-width', f'line widths {sorted(widths)}')
+    offs = column_offsets(lines[0], fl)
+    if offs is None:
+        V('header-wrong', f'header {lines[0]!r} is not the field names {[f.upper() for f in fl]} in order')
+        return
+    ends = offs[1:] + [max(len(l) for l in lines)]
+    rows = []
+    for l in lines:
+        if l[:offs[0]].strip() != '':
+            V('text-before-first-column', f'line {l!r}')
+        # a cell is the text below its header name up to the next header name; the blank before the next column is not part of it
+        rows.append([' ' + l[a_:b_] for a_, b_ in zip(offs, ends)])
     for ci in range(len(fl)):
         col = [r[ci] for r in rows]
-        if len({len(c) for c in col}) != 1:
-            V('column-cells-differ-in-width', f'column {fl[ci]}: cell widths {[len(c) for c in col]}')
-        for c in col:
-            core = c[1:-1] if len(c) >= 2 else c
-            if not (c.startswith(' ') and c.endswith(' ')):
-                V('cell-not-padded', f'column {fl[ci]}: cell {c!r}')
-        longest = max(len(c.rstrip()) for c in col)
-        if len(col[0]) < longest + 1:
-            V('column-too-narrow', f'column {fl[ci]}: width {len(col[0])}, longest cell {longest}')
-    if [c.strip() for c in rows[0]] != [f.upper() for f in fl]:
-        V('header-wrong', f'header {rows[0]}')
+        for c in col[1:]:
+            if ci + 1 < len(fl) and not c.endswith(' '):
+                V('column-too-narrow', f'column {fl[ci]}: cell {c!r} runs into the next column')
+                break
     for (i, lvl), r in zip(shown, rows[1:]):
         t = objs[i]
         for ci, f in enumerate(fl):
